@@ -1,3 +1,4 @@
+import Ebu.Spec.Flow
 import Ebu.Spec.Bus
 import Ebu.Proofs.BusFrame
 /-!
@@ -44,5 +45,16 @@ theorem panicking_once_stays_retired {R : Type} (I : RegImpl R) (hI : I.Lawful) 
     let s := run I cfg fuel faults prog
     ∀ t, ∀ r ∈ I.get s.reg t, r.once = true → r.rid ∉ s.c.executed :=
   Ebu.Bus.once_retired_after_run I hI cfg fuel faults prog
+
+/-! ### obligations on the control flow of the CURRENT source (`Ebu/Generated/Flow.lean`, regenerated from /repo on every run) -/
+
+/-- OBLIGATION: the recovering `defer` is registered before anything else in `callHandlerWithContext`; inside it `recover`, then the panic handler (only if something was recovered, once), then the handler-complete callback; the Sequential mutex is unlocked by a `defer` registered right after the lock; no early return -/
+theorem flow_handler_bracket : Ebu.Flow.handlerBracket = true := by decide +kernel
+
+/-- OBLIGATION: an async goroutine gives its in-flight count back by a `defer` registered first (a panicking handler cannot leak it: `Wait` still returns) -/
+theorem flow_async_cleanup_deferred : Ebu.Flow.inflightBracketsGoroutine = true := by decide +kernel
+
+/-- OBLIGATION: the turn of an Async+Sequential invocation is released by a `defer` registered right after it was obtained -/
+theorem flow_turn_release_deferred : Ebu.Flow.ticketDiscipline = true := by decide +kernel
 
 end Ebu.Props.C05
